@@ -28,7 +28,13 @@ var (
 	allowedCoinSymbolsRegexpCompile, _ = regexp.Compile(allowedCoinSymbols)
 )
 
-func checkAllowSymbol(symbol string) bool {
+func checkAllowSymbol(coinSymbol types.CoinSymbol) bool {
+	symbol := coinSymbol.String()
+	// String trims zero bytes on both sides: only the left-aligned form is a ticker, otherwise
+	// "\x00ABC" would be registered next to "ABC" (or the base coin) and read the same everywhere
+	if types.StrToCoinSymbol(symbol) != coinSymbol {
+		return false
+	}
 	if match := allowedCoinSymbolsRegexpCompile.MatchString(symbol); !match {
 		return false
 	}
@@ -63,7 +69,7 @@ func (data CreateCoinData) basicCheck(tx *Transaction, context *state.CheckState
 		}
 	}
 
-	if !checkAllowSymbol(data.Symbol.String()) {
+	if !checkAllowSymbol(data.Symbol) {
 		return &Response{
 			Code: code.InvalidCoinSymbol,
 			Log:  fmt.Sprintf("Invalid coin symbol. Should be %s and must contain characters", allowedCoinSymbols),
